@@ -125,7 +125,7 @@ PROPS.update({
                        "parking is proven for every load order and module set containing the enrolled factor's module (C02_parks_any_order)"]),
     "C07": _mach_prop(search=[{"name": "c18r", "n": 150, "seeds": 8}], assumptions=["the codec theorem is over all byte strings; single-use is proven on the storage operation (one occurrence erased); history-level counting is monitored on real traces"]),
     "C09": _mach_prop(["time stamps have one-second resolution (RFC 3339): known finding K1, with kernel-checked witness",
-                       "expire.Setup stamps on After(EventAuth) only: OAuth2 / registration / remember logins start the idle clock at the next request (DESIGN 6-F11)"]),
+                       "after fix f76b20a every interactive login stamps the session; a remember-cookie login does not (known finding login-unstamped:remember; the library documents expire and remember as conflicting)"]),
     "C10": _mach_prop(["the logout response's own flash message is not 'left behind' state"]),
     "C12": _mach_prop(["replay protection for TOTP needs the application's user type to implement UserOneTime"]),
     "C14": _mach_prop(["'identifier separator' is the character ';' (sharp boundary proven)"],
